@@ -292,6 +292,9 @@ fn c05_apply_decision_port_state_and_data_sets() {
     // receiving port, and master-only ports contribute no Ebest) nor M1/M2 decisions of a foreign data set
     kani::assume(!(k == 5 && port.config.master_only));
     kani::assume(a.steps_removed < 65535);
+    // open finding (C14): the multiport rule moves a Faulty port to Passive; isolated in
+    // c14_finding_bmca_multiport_rule_leaves_faulty, excluded here so that any other deviation is still reported
+    kani::assume(!(tag == 0 && k <= 2 && !default_ds.slave_only && port.multiport_disable.is_some()));
     let pre = port_view(&port);
     let pre_remote = pre.slave.map(|s| s.remote_master);
     let slave_only = default_ds.slave_only;
@@ -385,13 +388,14 @@ fn c03_start_end_bmca_is_identity() {
     mk_port!(port, &lock, any_port_state(), Running);
     let pre = port_view(&port);
     let inst = instance_view(lock.peek());
-    let in_bmca = port.start_bmca();
+    let in_bmca = core::mem::ManuallyDrop::into_inner(port).start_bmca();
     assert!(port_view(&in_bmca) == pre);
     assert!(in_bmca.lifecycle.local_best.is_none());
     let (running, pending) = in_bmca.end_bmca();
     core::mem::forget(pending);
     assert!(port_view(&running) == pre);
     assert!(instance_view(lock.peek()) == inst);
+    core::mem::forget(running);
 }
 
 // ============================================================================================ C19
@@ -497,4 +501,43 @@ fn c15_path_trace_store_and_loop_discard() {
     }
     kani::cover!(loops);
     kani::cover!(!loops && n == 2);
+}
+
+
+/// FINDING harness (expected to fail while the finding is open): the BMCA's multiport rule (decision M1/M2/M3
+/// while a lower-numbered port of the same instance was heard) must not move a Faulty port to Passive.
+#[kani::proof]
+#[kani::unwind(34)]
+#[kani::stub(PortActionIterator::from, PortActionIterator::verif_recording_from)]
+#[kani::stub(crate::time::Interval::as_core_duration, stub_as_core_duration)]
+#[kani::stub(core::time::Duration::mul_f64, stub_mul_f64)]
+fn c14_finding_bmca_multiport_rule_leaves_faulty() {
+    let lock = ChkLock::new(any_instance_state(0));
+    mk_port!(port, &lock, PortState::Faulty, InBmca { pending_action: actions![], local_best: None });
+    let mut default_ds = any_default_ds();
+    default_ds.slave_only = false;
+    port.multiport_disable = Some(dur_from_bits(0));
+    let mut inst0 = any_instance_state(0);
+    port.set_recommended_state(RecommendedState::M1(default_ds), &mut inst0.path_trace_ds, &mut inst0.time_properties_ds, &mut inst0.current_ds, &mut inst0.parent_ds, &default_ds);
+    assert!(port_view(&port).tag == 0);
+}
+
+/// FINDING harness (expected to fail while the finding is open): an accepted Announce from a lower-numbered port
+/// of the same instance must not move a Faulty port to Passive.
+#[kani::proof]
+#[kani::unwind(34)]
+#[kani::stub(PortActionIterator::from, PortActionIterator::verif_recording_from)]
+#[kani::stub(crate::time::Interval::as_core_duration, stub_as_core_duration)]
+#[kani::stub(core::time::Duration::mul_f64, stub_mul_f64)]
+#[kani::stub(<Duration as core::ops::Div<i32>>::div, stub_div_by_two)]
+#[kani::stub(<Duration as core::ops::Div<f64>>::div, stub_div_by_two)]
+#[kani::stub(<Duration as core::ops::Mul<u16>>::mul, verif_fm::stub_mul_window)]
+fn c14_finding_announce_multiport_rule_leaves_faulty() {
+    let lock = ChkLock::new(any_instance_state(0));
+    mk_port!(port, &lock, PortState::Faulty, Running);
+    port.bmca = Bmca::new(AnyAccept { mode: 0, only: any_clock_identity() }, any_time_interval(), port.port_identity);
+    let a = verif_fm::any_announce();
+    let m = announce_msg(a, TlvSet::default());
+    let _ = run_actions!(port.handle_announce(&m, a));
+    assert!(port_view(&port).tag == 0);
 }
